@@ -1,4 +1,4 @@
-import GmQuic.Lemmas.FrameRd
+import GmQuic.Lemmas.FrameLoop
 /-!
 C03, part 2: a decrypted packet payload → frames (`be_frame`, `FrameReader`, the `read_plain_packet` loop, the
 frame dispatchers).  For ALL byte strings and every packet type.
@@ -22,63 +22,13 @@ example : decFrame .initial [0x00, 0x01] = .ok .padding [0x01] := by decide
 /-- the iterator: never panics; an `Ok` step advances the payload by at least one byte -/
 theorem frame_reader_step (bs : Bytes) (t : PktType) :
     (∀ site, FrameReader.next t bs ≠ .panic site) ∧
-    (∀ f rest, FrameReader.next t bs = .frame f rest → rest.length < bs.length) := by
-  unfold FrameReader.next
-  constructor
-  · intro site
-    split
-    · intro h; cases h
-    · cases hd : decFrame t bs with
-      | ok f rest =>
-        have := decFrame_lt t bs f rest hd
-        simp only; rw [if_neg (by omega)]; intro h; cases h
-      | err k => intro h; cases h
-      | panic s => exact absurd hd (decFrame_np t bs s)
-  · intro f rest
-    split
-    · intro h; cases h
-    · cases hd : decFrame t bs with
-      | ok f' rest' =>
-        have := decFrame_lt t bs f' rest' hd
-        simp only; rw [if_neg (by omega)]; intro h; cases h
-        simp only [List.length_drop]; omega
-      | err k => intro h; cases h
-      | panic s => intro h; cases h
+    (∀ f rest, FrameReader.next t bs = .frame f rest → rest.length < bs.length) :=
+  next_step bs t
 
 /-- After an error `FrameReader` does NOT advance (unlike `PacketReader` it keeps its buffer): a caller must
 stop at the first error, as `read_plain_packet` does with `?`. -/
 theorem frame_reader_error_is_sticky (bs : Bytes) (t : PktType) (k : ErrKind)
     (h : FrameReader.next t bs = .err k) : FrameReader.next t bs = .err k := h
-
-private theorem run_ok (t : PktType) : ∀ fuel bs acc, bs.length < fuel →
-    (∀ s, readPlainRun fuel t bs acc ≠ .panic s) ∧ readPlainRun fuel t bs acc ≠ .outOfFuel ∧
-    (∀ fr e, readPlainRun fuel t bs acc = .err fr e → e ≠ .noFrames) := by
-  intro fuel
-  induction fuel with
-  | zero => intro bs acc h; omega
-  | succ fuel ih =>
-    intro bs acc hlen
-    have hs := frame_reader_step bs t
-    unfold readPlainRun
-    cases hn : FrameReader.next t bs with
-    | eof => exact ⟨fun s h => (by cases h), fun h => (by cases h), fun fr e h => (by cases h)⟩
-    | panic s => exact absurd hn (hs.1 s)
-    | frame f rest =>
-      have := hs.2 f rest hn
-      exact ih rest (f :: acc) (by omega)
-    | err k =>
-      simp only
-      have hk : ∃ e, ferrOf k = some e ∧ e ≠ .noFrames := by
-        unfold FrameReader.next at hn
-        split at hn
-        · cases hn
-        · cases hd : decFrame t bs with
-          | ok f rest => rw [hd] at hn; simp only at hn; split at hn <;> cases hn
-          | err k' => rw [hd] at hn; cases hn; exact decFrame_err t bs k hd
-          | panic s => rw [hd] at hn; cases hn
-      obtain ⟨e, he, hne⟩ := hk
-      rw [he]
-      exact ⟨fun s h => (by cases h), fun h => (by cases h), fun fr e' h => (by cases h; exact hne)⟩
 
 /-- The whole payload as `read_plain_packet` decodes it: no panic and it terminates within `len + 1` reader
 calls, for every byte string and packet type. -/
